@@ -87,6 +87,12 @@ def damage_list(kind: str, size: int, tier: str) -> List[Tuple[str, Any]]:
     out.append(("empty_json", None))
     out.append(("swap", None))
     out.append(("transient", None))
+    if kind.startswith("data#"):
+        # the bytes change BETWEEN two accesses of one read call: rows may only be decoded from bytes
+        # that were verified
+        for p in sorted(x for x in flips if 0 <= x < size):
+            out.append(("toctou_flip", p))
+        out.append(("toctou_swap", None))     # ... replaced by a different VALID parquet file (a sibling's bytes)
     return out
 
 
@@ -98,7 +104,8 @@ class C14(Check):
             "reachable from the current snapshot (current metadata JSON, manifest list, each manifest, each data file) "
             "+ the pointer x damage {delete; truncate at 0,1,4,1/4,1/2,3/4,len-8,len-4,len-1 (thorough: ~40 offsets); "
             "flip one byte at 6 offsets (thorough: ~60); 64 random bytes; '{}' JSON; swap with a sibling of the same "
-            "kind; transient error on the first read of that file} x 11 read API/option variants each through a fresh "
+            "kind; transient error on the first read of that file; data files: one byte flipped (file replaced) right after "
+            "the read call's first access of the file} x 11 read API/option variants each through a fresh "
             "handle; non-trivial = the damaged file is one the API depends on and the outcome was judged; distinct by "
             "(file kind, damage class, api)")
     assumptions = [
@@ -167,10 +174,39 @@ class C14(Check):
                 # independent view after the damage
                 indep = self._independent(root, baseline)
                 fkind = kind.split("#")[0]
-                for (api, opts), hmode in [(ao, hm) for hm in ("fresh", "warm") for ao in APIS]:
+                for (api, opts), hmode in [(ao, hm) for hm in (("fresh", "second") if dmg.startswith("toctou") else ("fresh", "warm")) for ao in APIS]:
                     key = (api, repr(opts))
-                    if hmode == "warm" and dmg == "transient":
+                    if hmode == "warm" and dmg in ("transient", "toctou_flip", "toctou_swap"):
                         continue
+                    if dmg in ("toctou_flip", "toctou_swap"):
+                        if not (opts.get("verify_checksums", True) and api != "row_count"):
+                            continue
+                        open(path, "wb").write(raw)
+                        state = {"fired": 0, "n": 0}
+                        if dmg == "toctou_swap":
+                            flipped = bytearray(open(os.path.join(root, self._sibling(root, tg, kind)), "rb").read())
+                        else:
+                            flipped = bytearray(raw)
+                            flipped[min(case["arg"], len(flipped) - 1)] ^= 0x55
+
+                        def hook(o: Any, state: Dict[str, int] = state, flipped: bytes = bytes(flipped)) -> None:
+                            # variant "after1": right after the first access call returned; variant "before2":
+                            # right before a second access of the same file within this one read call
+                            if state["fired"]:
+                                return
+                            p = (o.path or "")
+                            if o.name in ("local.read_file", "local.open_file", "local.open_seekable",
+                                          "data.open_parquet_source") and p.lstrip("/") == rel:
+                                if o.phase == "before":
+                                    state["n"] += 1
+                                if (hmode == "fresh" and o.phase == "after") or (hmode == "second" and o.phase == "before" and state["n"] == 2):
+                                    state["fired"] = 1
+                                    tmp = path + ".toctou"
+                                    open(tmp, "wb").write(flipped)
+                                    os.replace(tmp, path)      # a new inode: an already open stream keeps the old bytes
+
+                        ip.after.append(hook)
+                        ip.before.append(hook)
                     if dmg == "transient":
                         state = {"fired": 0}
 
@@ -192,7 +228,28 @@ class C14(Check):
                     finally:
                         if hook is not None and hook in ip.before:
                             ip.before.remove(hook)
+                        if hook is not None and hook in ip.after:
+                            ip.after.remove(hook)
                     res.evals += 1
+                    if dmg in ("toctou_flip", "toctou_swap"):
+                        res.count(f"verified_read_accessed_data_file_{min(state['n'], 3)}x")
+                        if not state["fired"]:
+                            res.count("toctou_not_reached")
+                            continue
+                        res.count("toctou_applied")
+                        res.count("judged")
+                        if got[0] == "raise":
+                            res.count("raised")
+                            res.key(["data", dmg, api, "raise"])
+                        elif got[1] == baseline[key]:
+                            res.count("returned_undamaged")
+                            res.key(["data", dmg, api, "same"])
+                        else:
+                            res.violation(f"unverified-bytes-decoded:{api}",
+                                          f"{api}{opts}: the data file changed between two accesses of one read; rows were decoded from "
+                                          f"bytes that were never verified ({len(got[1])} rows, differing from the verified content)",
+                                          {"target": kind, "file": rel, "damage": dmg, "arg": case["arg"], "api": api, "options": opts})
+                        continue
                     if dmg == "transient":
                         if not state["fired"]:
                             res.count("transient_not_reached")
